@@ -58,7 +58,7 @@ func get(m map[string]*big.Int, d string) *big.Int {
 }
 
 func TestPropGauges(t *testing.T) {
-	drv.Check(t, drv.Cfg{Name: "gauges", Rule: rule, Quick: 200, Thorough: 10000, Steps: 30, TSteps: 60}, func(rt *rapid.T, cs *drv.Case) {
+	drv.Check(t, drv.Cfg{Name: "gauges", Rule: rule, Quick: 200, Thorough: 8000, Steps: 30, TSteps: 60}, func(rt *rapid.T, cs *drv.Case) {
 		c := chain.New(t)
 		ik := c.App.IncentivesKeeper
 		huge := new(big.Int).Exp(big.NewInt(10), big.NewInt(24), nil)
